@@ -3,6 +3,7 @@ C07 — Protocol enforced: no put/get without a valid reservation of one's own.
 -/
 import FsVerif.Proofs.PosExtra
 import FsVerif.Proofs.BufExtra
+import FsVerif.Proofs.Fleet
 namespace FsVerif.Props.C07
 open FsVerif PosStore
 
@@ -142,5 +143,57 @@ theorem buf_cancel_accepted {s : BufStore} (hr : BufStore.ReachD s) {tid : Nat} 
   · intro h; unfold BufStore.step; exact BufStore.cancelPut_accept (by simpa [BufStore.KnownPut] using h)
   · intro h; unfold BufStore.step
     exact BufStore.cancelGet_accept (BufStore.clearFired_core (BufStore.reachD_binv hr).toCore).toPre (by simpa [BufStore.KnownGet] using h)
+
+/-! ### FleetStore (the store inside a Fleet edge): a call without a valid reservation of one's own is rejected with RuntimeError
+and leaves the fleet exactly as it was — contents, every reservation, the kernel queue and the trips -/
+
+def FUntouched (s s' : FleetStore) : Prop := s' = { s with b := { s.b with fired := [] }, newReady := [] }
+
+theorem fleet_put_rejected {s : FleetStore} {p tid : Nat} (x : Item) (h : ¬ BufStore.ValidPut s.b p tid) :
+    FUntouched s (s.step (.put p tid x)).1 ∧ (s.step (.put p tid x)).2 = .err .runtime := by
+  unfold FleetStore.step FleetStore.put FUntouched
+  simp only
+  rw [BufStore.put_reject x 0 (by simpa [BufStore.ValidPut] using h)]
+  exact ⟨rfl, rfl⟩
+
+theorem fleet_get_rejected {s : FleetStore} {p tid : Nat} (h : ¬ BufStore.ValidGet s.b p tid) :
+    FUntouched s (s.step (.get p tid)).1 ∧ (s.step (.get p tid)).2 = .err .runtime := by
+  unfold FleetStore.step FleetStore.liftB FUntouched
+  simp only
+  rw [BufStore.get_reject (by simpa [BufStore.ValidGet] using h)]
+  exact ⟨rfl, rfl⟩
+
+theorem fleet_cancelPut_rejected {s : FleetStore} {tid : Nat} (h : ¬ BufStore.KnownPut s.b tid) :
+    FUntouched s (s.step (.cancelPut tid)).1 ∧ (s.step (.cancelPut tid)).2 = .err .runtime := by
+  unfold FleetStore.step FleetStore.liftB FUntouched
+  simp only
+  rw [BufStore.cancelPut_reject (by simpa [BufStore.KnownPut] using h)]
+  exact ⟨rfl, rfl⟩
+
+theorem fleet_cancelGet_rejected {s : FleetStore} {tid : Nat} (h : ¬ BufStore.KnownGet s.b tid) :
+    FUntouched s (s.step (.cancelGet tid)).1 ∧ (s.step (.cancelGet tid)).2 = .err .runtime := by
+  unfold FleetStore.step FleetStore.liftB FUntouched
+  simp only
+  rw [BufStore.cancelGet_reject (by simpa [BufStore.KnownGet] using h)]
+  exact ⟨rfl, rfl⟩
+
+/-- … and a call WITH a valid reservation of one's own is accepted, in every reachable state of the fleet -/
+theorem fleet_get_accepted {s : FleetStore} (hr : FleetStore.ReachD s) {p tid : Nat} (h : BufStore.ValidGet s.b p tid) :
+    ∃ e ∈ s.b.ready, (s.step (.get p tid)).2 = .item e.item := by
+  unfold FleetStore.step FleetStore.liftB
+  obtain ⟨e, h1, _, h3⟩ := BufStore.get_accept (BufStore.clearFired_core (FleetStore.reachD_kt hr).core).toPre (by simpa [BufStore.ValidGet] using h)
+  exact ⟨e, h1, h3⟩
+
+theorem fleet_put_accepted {s : FleetStore} (hr : FleetStore.ReachD s) {p tid : Nat} (x : Item) (h : BufStore.ValidPut s.b p tid) :
+    (s.step (.put p tid x)).2 = .ok := by
+  have hb := BufStore.put_accept (s := { s.b with fired := [] }) x 0 (BufStore.clearFired_core (FleetStore.reachD_kt hr).core).toPre
+    (by simpa [BufStore.ValidPut] using h)
+  unfold FleetStore.step FleetStore.put
+  simp only
+  generalize hput : BufStore.put { s.b with fired := [] } p tid x 0 = r at hb
+  obtain ⟨b1, res⟩ := r
+  simp only at hb
+  subst hb
+  rfl
 
 end FsVerif.Props.C07
